@@ -20,25 +20,39 @@ OPS = {"__lt__": ast.Lt, "__le__": ast.LtE, "__gt__": ast.Gt, "__ge__": ast.GtE,
 
 
 # ------------------------------------------------------------------ E7
-def interval_predicate(fn: ast.AST) -> Tuple[Callable[[Dict[str, int]], bool], List[str], str]:
+def interval_predicate(fn: ast.AST, methods: Optional[Dict[str, ast.AST]] = None) -> Tuple[Callable[[Dict[str, int]], bool], List[str], str]:
     """Extract the boolean function of the four interval bounds that Measurement.__eq__
     returns on its main path.  Bounds are locals assigned `<x>.measurand -/+ <x>.uncertainty`."""
     params = [a.arg for a in fn.args.args]  # type: ignore[attr-defined]
     me, other = params[0], params[1]
     bounds: Dict[str, str] = {}
     defs: Dict[str, ast.AST] = {}
+
+    def bound_of(v: ast.AST, depth: int = 0) -> Optional[str]:
+        """`<x>.measurand -/+ <x>.uncertainty`, directly or through a method that returns it."""
+        if isinstance(v, ast.BinOp) and isinstance(v.op, (ast.Add, ast.Sub)) \
+                and isinstance(v.left, ast.Attribute) and v.left.attr == "measurand" \
+                and isinstance(v.right, ast.Attribute) and v.right.attr == "uncertainty" \
+                and ast.unparse(v.left.value) == ast.unparse(v.right.value):
+            return f"{ast.unparse(v.left.value)}.{'upper' if isinstance(v.op, ast.Add) else 'lower'}"
+        if isinstance(v, ast.Call) and isinstance(v.func, ast.Attribute) and not v.args and not v.keywords and depth < 2 and methods:
+            m = methods.get(v.func.attr)
+            if m is not None:
+                rets = [r for r in ast.walk(m) if isinstance(r, ast.Return) and r.value is not None]
+                if len(rets) == 1:
+                    inner = bound_of(rets[0].value, depth + 1)
+                    if inner is not None and m.args.args and inner.split(".")[0] == m.args.args[0].arg:
+                        return f"{ast.unparse(v.func.value)}.{inner.split('.')[1]}"
+        return None
     for st in ast.walk(fn):
         if isinstance(st, ast.Assign) and len(st.targets) == 1 and isinstance(st.targets[0], ast.Name):
             name = st.targets[0].id
-            v = st.value
-            if isinstance(v, ast.BinOp) and isinstance(v.op, (ast.Add, ast.Sub)) \
-                    and isinstance(v.left, ast.Attribute) and v.left.attr == "measurand" \
-                    and isinstance(v.right, ast.Attribute) and v.right.attr == "uncertainty" \
-                    and ast.unparse(v.left.value) == ast.unparse(v.right.value) and ast.unparse(v.left.value) in (me, other):
-                who = "self" if ast.unparse(v.left.value) == me else "other"
-                bounds[name] = f"{who}.{'upper' if isinstance(v.op, ast.Add) else 'lower'}"
+            b = bound_of(st.value)
+            if b is not None and b.split(".")[0] in (me, other):
+                who = "self" if b.split(".")[0] == me else "other"
+                bounds[name] = f"{who}.{b.split('.')[1]}"
             else:
-                defs[name] = v
+                defs[name] = st.value
     if len(set(bounds.values())) < 4:
         raise AnalysisError(f"Measurement.__eq__: expected the four bounds measurand -/+ uncertainty of both operands, found {sorted(bounds.values())}")
     rets = [r for r in ast.walk(fn) if isinstance(r, ast.Return) and r.value is not None
@@ -163,7 +177,8 @@ def run(rep: Report) -> None:
 
     # R12.1
     meq = prog.func("Measurement.__eq__")
-    pred, atoms, text = interval_predicate(meq.node)
+    mcls = prog.cls("Measurement")
+    pred, atoms, text = interval_predicate(meq.node, {n: prog.functions[q].node for n, q in mcls.methods.items()})
     orders = [o for o in weak_orders(atoms) if o["self.lower"] <= o["self.upper"] and o["other.lower"] <= o["other.upper"]]
     bad = []
     for o in orders:
@@ -220,10 +235,15 @@ def run(rep: Report) -> None:
               "Quantity defines neither functools.total_ordering over __eq__/__lt__ nor all four ordering methods", f"{qc.path}:{qc.node.lineno}")
     for d in ("__eq__", "__lt__"):
         fi = prog.func(f"Quantity.{d}")
-        gate = [s for s in ast.walk(fi.node) if isinstance(s, ast.If) and ast.unparse(s.test).count(".dimension") >= 2]
-        ok = bool(gate) and all(isinstance(s.body[-1], ast.Return) and ast.unparse(s.body[-1].value or ast.Constant(0)) == "NotImplemented" for s in gate)
-        rep.check("R12.4", f"Quantity.{d}:gate", ok, f"Quantity.{d} does not return NotImplemented for different dimensions (== must "
-                  "be False and ordering a TypeError, decided by Python from NotImplemented)", fi.where())
+        # shared with C03 R03.3: the gate may be inline or in a helper whose None result becomes NotImplemented
+        from ..core import Report as _R
+        probe = _R("C12", rep.tier)
+        probe.rule("g", "gate")
+        from ..quantity_rules import check_gates
+        check_gates(probe, prog, "g")
+        bad_gate = [f_ for f_ in probe.findings if f_.construct == f"Quantity.{d}:gate"]
+        rep.check("R12.4", f"Quantity.{d}:gate", not bad_gate, f"Quantity.{d} does not return NotImplemented for different dimensions before "
+                  "comparing (== must be False and ordering a TypeError, decided by Python from NotImplemented)", fi.where())
         hs = [h for h in ast.walk(fi.node) if isinstance(h, ast.ExceptHandler)]
         ok2 = bool(hs) and all(h.body and isinstance(h.body[-1], ast.Return) and ast.unparse(h.body[-1].value or ast.Constant(0)) == "NotImplemented" for h in hs)
         rep.check("R12.4", f"Quantity.{d}:unconvertible", ok2, f"Quantity.{d} does not return NotImplemented when no conversion exists", fi.where())
